@@ -355,6 +355,19 @@ def enum_cases(tier):
                     yield {"graph": graph, "backend": list(be), "list": list(lst), "missing": None}
                     if r == 1:
                         yield {"graph": graph, "backend": list(be) * 2, "list": list(lst), "missing": None}    # module_is_backend() called twice
+    if tier == "quick":
+        # every DAG on 4 labelled modules, listed in full in both orders (the thorough tier adds every single root)
+        names = NAMES[:4]
+        pairs = [(a, b) for a in names for b in names if a != b]
+        for mask in range(1 << len(pairs)):
+            graph = {}
+            for i, (a, b) in enumerate(pairs):
+                if mask >> i & 1:
+                    graph.setdefault(a, []).append(b)
+            if has_cycle(graph, names):
+                continue
+            for lst in (names, names[::-1]):
+                yield {"graph": graph, "list": list(lst), "missing": None}
     if tier == "thorough":
         names = NAMES[:4]
         pairs = [(a, b) for a in names for b in names if a != b]
@@ -404,7 +417,7 @@ def extra_phase(pid, tier, seed):
            "exhaustive_scope": "every digraph (self-loops included) on 1-3 stub modules x every ordered non-empty module list; every graph on 2 modules "
                                "(self-loops included) and on 3 modules (no self-loops) whose edges are each declared by module_depends or by module_antidepends "
                                "x every ordered non-empty list; every acyclic 3-module graph x every non-empty set of core back-ends (module_is_backend) x 4 lists"
-                               + ("; every DAG on 4 labelled modules listed from each single root and in two full orders" if tier == "thorough" else "")}
+                               + ("; every DAG on 4 labelled modules listed from each single root and in two full orders" if tier == "thorough" else "; every DAG on 4 labelled modules listed in two full orders")}
     for n, nt, fails, classes, samples in rs:
         out["evaluations"] += n
         out["nontrivial"] += nt
